@@ -644,3 +644,18 @@ pub fn cpu_secs() -> f64 {
 pub fn timing_enabled() -> bool {
     std::env::var("SUXMON_TIMES").is_ok()
 }
+
+/// The builder spawns (and implicitly detaches) scoped threads for every
+/// attempt. The driver exports RUST_MIN_STACK=64 MiB; stacks of that size are
+/// not kept in glibc's stack cache but unmapped when the thread exits, which
+/// exposes a race inside glibc's `pthread_detach` (it reads the thread
+/// descriptor, which lives on that stack, after marking the thread detached):
+/// observed once as a SIGSEGV in libc.so.6 in ~10^6 builds (kernel log: "segfault
+/// ... in libc.so.6", faulting instruction `testb $0x10,0x308(%rdi)` right after
+/// the `lock cmpxchg` on `joinid`), not reproducible on the same case. With
+/// Rust's default 2 MiB stacks (what every user of sux gets) the stacks stay
+/// cached and mapped. Must run before the first thread is spawned (the value
+/// is read once).
+pub fn default_thread_stacks() {
+    std::env::set_var("RUST_MIN_STACK", "2097152");
+}
